@@ -41,6 +41,13 @@ def mkrow(E, R, Qmap, rev, ridx, qidx, tag, su):
     """row with one segment over reference labels ridx (1-based numbers) and query label numbers qidx"""
     rp = {p.siteId: p for p in R.getPositionsWithSiteIds()}
     qp = {p.siteId: p for p in Qmap.getPositionsWithSiteIds(rev)}
+    if qidx and qidx[0] < 0:        # labels given relative to the end of this map / fragment (its own numbering, whatever its shift)
+        ids = sorted(qp)
+        if len(ids) < -min(qidx):
+            return None
+        qidx = [ids[k] for k in qidx]
+        if rev:
+            qidx = sorted(qidx, reverse=True)
     if not all(i in rp for i in ridx) or not all(j in qp for j in qidx):
         return None
     seed = E.real(f"seed_{tag}")
@@ -63,7 +70,7 @@ def mkrow(E, R, Qmap, rev, ridx, qidx, tag, su):
                                      Qmap.length, R.length, rev)
 
 
-def first_pass_menu(KR, KQ):
+def first_pass_menu(KR, KQ, nrefs=1):
     """(refIndex, reverse, reference labels, query labels) -- valid matchings"""
     m = [None,
          (0, False, [1, 2, 3], [1, 2, 3]),                       # aligned part at the molecule start
@@ -75,6 +82,8 @@ def first_pass_menu(KR, KQ):
         m.append((0, True, [3, 4], [6, 5]))
         m.append((0, False, [2, 3], [3, 4]))                    # near the start: only the right flank is long enough
         m.append((0, False, [4, 5], [7, 8]))                    # near the end: only the left flank is long enough
+    if nrefs > 1:
+        m.append((1, False, [1, 2, 3], [1, 2, 3]))              # on the second reference (last menu entry: index -1)
     return m
 
 
@@ -87,6 +96,7 @@ def second_pass_menu(KR, KQ, nrefs):
     m.append((1, False, [KR - 1, KR], [KQ - 1, KQ]) if nrefs > 1 else None)  # other reference
     m.append((0, False, [1, 2], [1, 2]))                  # head of the molecule (left fragment)
     m.append((0, True, [1, 2], [KQ, KQ - 1]))             # reverse strand, tail labels
+    m.append((0, False, [KR - 1, KR], [-2, -1]))          # the fragment's own last two labels (whatever numbers its shift gives them)
     return m
 
 
@@ -106,13 +116,13 @@ def build_world(E, cfg):
     E.assume(su <= 0)
     maxDiff = E.real("maxDifference")
     E.assume(maxDiff >= 0)
-    fp_menu = first_pass_menu(KR, KQ)
+    fp_menu = first_pass_menu(KR, KQ, nrefs)
     sp_menu = second_pass_menu(KR, KQ, nrefs)
     allowed_f = cfg.get("first", list(range(len(fp_menu))))
     allowed_s = cfg.get("second", list(range(len(sp_menu))))
     first_choice = {}
     for qm in queries:
-        first_choice[qm.moleculeId] = fp_menu[E.choose(allowed_f, f"first-pass-row-of-{qm.moleculeId}")]
+        first_choice[qm.moleculeId] = fp_menu[E.choose(allowed_f, f"first-pass-row-of-{qm.moleculeId}")]      # index -1 = last entry
     second_choice = {}   # decided lazily per fragment (keyed by molecule id and fragment shift/size) but once per path
     return dict(refs=refs, queries=queries, su=su, maxDiff=maxDiff, first_choice=first_choice, second_choice=second_choice,
                 sp_menu=sp_menu, allowed_s=allowed_s, E=E)
@@ -234,7 +244,7 @@ MULTIPASS_BOUNDS = ("1-2 queries of 6 labels and one query of 10 labels (both fl
 def multipass_configs(tier):
     cfgs = [dict(KR=6, KQ=6, nq=1, nrefs=1), dict(KR=6, KQ=6, nq=1, nrefs=2, first=[1, 2, 3], second=[0, 1, 5])]
     cfgs.append(dict(KR=6, KQ=6, nq=2, nrefs=1, first=[0, 1, 2], second=[0, 1, 2]))
-    cfgs.append(dict(KR=6, KQ=10, nq=1, nrefs=1, first=[5, 6, 7, 8], second=[0, 1, 6, 7]))     # 1-2 fragments per query
+    cfgs.append(dict(KR=6, KQ=10, nq=1, nrefs=1, first=[5, 6, 7, 8], second=[0, 1, 6, 7, 8]))     # 1-2 fragments per query
     if tier != "quick":
         cfgs.append(dict(KR=6, KQ=6, nq=2, nrefs=1, first=[0, 1, 3, 4], second=[0, 1, 2, 4], swap_ids=True))
         cfgs.append(dict(KR=6, KQ=9, nq=1, nrefs=1))
